@@ -82,3 +82,35 @@ Example parse_render_example :
                                s_factory_type := None; s_attrs := None; s_comment := None; s_requires_unaligned := false |})] in
   wf_doc ds = true /\ wf_style default_style = true.
 Proof. vm_compute. split; reflexivity. Qed.
+
+(* non-vacuity of parse_repo_str_partial (ALL premises together) and of the round-trip theorems on a document that also carries struct
+   and member attributes, a conditional member, an array and an enum: it is well-formed, has no attribute argument `not`, has statements
+   left after dropping free comments, and both texts parse back *)
+Definition attributed_doc : list item :=
+  [IComment "free"%string;
+   IImport "types.cats"%string;
+   IDecl (DAlias "Hash256"%string (LBuffer 32) (Some "a hash"%string));
+   IDecl (DEnum "Color"%string {| it_unsigned := true; it_size := 1; it_sizeref := None |}
+            [{| ev_name := "RED"%string; ev_value := 255; ev_comment := None |}] None None);
+   IDecl (DStruct {| s_name := "Pair"%string; s_disp := SdNone;
+                     s_fields := [Field "size"%string (FInt {| it_unsigned := false; it_size := 4; it_sizeref := None |}) VNone DispNone None None;
+                                  Field "count"%string (FInt {| it_unsigned := true; it_size := 1; it_sizeref := None |}) VNone DispNone None None;
+                                  Field "items"%string
+                                    (FArray {| a_elem := ElName "Hash256"%string; a_size := SzName "count"%string; a_sort_key := None;
+                                               a_byte_constrained := false; a_alignment := None; a_last_padded := None |})
+                                    VNone DispNone (Some [{| at_name := "is_byte_constrained"%string; at_values := [] |}]) (Some "the items"%string);
+                                  Field "color"%string (FName "Color"%string) VNone DispNone None None;
+                                  Field "extra"%string (FName "Hash256"%string)
+                                    (VCond {| c_value := CvName "RED"%string; c_op := "equals"%string; c_link := "color"%string |}) DispNone None None];
+                     s_factory_type := None;
+                     s_attrs := Some [{| at_name := "size"%string; at_values := [AvStr "size"%string] |};
+                                      {| at_name := "is_aligned"%string; at_values := [] |}];
+                     s_comment := Some "a pair"%string; s_requires_unaligned := false |})].
+
+Example premises_nonvacuous :
+  wf_doc attributed_doc = true /\ wf_style default_style = true /\ no_not_arguments attributed_doc = true
+  /\ strip_free_comments attributed_doc <> []
+  /\ parse (render default_style attributed_doc) = Ok attributed_doc
+  /\ parse (repo_print attributed_doc) = Ok (strip_free_comments attributed_doc).
+Proof. vm_compute. repeat split; try reflexivity. discriminate. Qed.
+Print Assumptions premises_nonvacuous.
